@@ -166,6 +166,12 @@ theorem tie_handler_create_skips_finished :
       | true => exact absurd (h2 ph (by simpa using hc)) h
     rw [a, b]
 
+/-- nothing in package arbitrator (filter, job iterator, sorts, handler, arbitrator) reads `spec.paused`: the model's jobs have no
+    such field, so a paused job that is Running or has passed arbitration is counted by every limit check and by the duplicate
+    rule exactly like an unpaused one (`round_inv`, `no_second_job_ref` apply to it unchanged), and its pause / resume Update
+    event is an Update event with an unchanged phase (`handler_events_keep_live`) -/
+theorem tie_arbitrator_ignores_paused : C16.arbPausedMentions = 0 := by decide
+
 /-- no code of package v1alpha2 outside the generated deep-copy / conversion files names one of the three caps — in
     particular SetDefaults_DeschedulerConfiguration does not (the model's `defaultCap` is the identity) -/
 theorem tie_defaults_leave_caps : C16.v1alpha2CapMentions = 0 := by decide
